@@ -159,14 +159,50 @@ def attribute_xor(case, sa, sb, ra, rb, exact, delta):
             case.tags["contact_inside_xor"] = True
 
 
+def attribute_xor_raise(case, sa, sb):
+    """A ^ B raised on transversal operands: attributed to the contact mechanism only if both
+    differences can be computed and it is the library's own union of them -- whose operands the
+    oracle classifies as touching -- that raises."""
+    try:
+        A, B = G.build(sa), G.build(sb)
+        X = A - B
+        A, B = G.build(sa), G.build(sb)
+        Y = B - A
+    except Exception:
+        case.count("xor-attribution:differences-raise")
+        return
+    try:
+        X | Y
+        case.count("xor-attribution:union-returns")
+        return
+    except Exception:
+        pass
+    zc = W.pair_class(S.snap_shape(X), S.snap_shape(Y))
+    case.count("xor-attribution:done")
+    if zc["contact"]:
+        case.tags["contact"] = True
+        case.tags["contact_inside_xor"] = True
+
+
 def case(ctx):
     rng = ctx.rng
     program_mode = ctx.index % 4 == 3
     if program_mode:
         return program_case(ctx)
     sa, sb, info = W.make_pair(rng, curved_prob=0.2)
+    if rng.random() < 0.06:
+        # exact rational operands with curved segments (exact Newton iterations inside the library)
+        sa, _ = G.random_polygon(rng, "frac", (0, 0), 10.0)
+        maker = rng.choice([G.random_blob, G.random_bulged_rect, G.random_lens])
+        kw = {"num": "frac"}
+        if maker is G.random_blob:
+            kw.update(degree=rng.choice([2, 3]), mixed=False)
+        sb, _ = maker(rng, (rng.randint(-6, 6), rng.randint(-6, 6)), 8.0, **kw)
+        if rng.random() < 0.5:
+            sa, sb = sb, sa
+        info = {"ka": "S", "kb": "S", "placement": "rational-curved"}
     case = Case(ctx, {"A": sa, "B": sb, "kinds": info["ka"] + info["kb"]},
-                "pair-%s" % ("curved" if (G.spec_is_curved(sa) or G.spec_is_curved(sb)) else G.spec_num(sa)))
+                "pair-%s" % (("curved-rational" if info.get("placement") == "rational-curved" else "curved") if (G.spec_is_curved(sa) or G.spec_is_curved(sb)) else G.spec_num(sa)))
     A0, B0 = G.build(sa), G.build(sb)
     ra, rb = S.snap_shape(A0), S.snap_shape(B0)
     cls = W.pair_class(ra, rb)
@@ -208,6 +244,8 @@ def case(ctx):
                 continue
             if kind == "raised":
                 case.violate("%s raised %s for operands in general position (%s)" % (label, exc_text(detail), cls["class"]), op=label)
+                if op == "xor":
+                    attribute_xor_raise(case, sa, sb)
             elif kind == "budget":
                 case.violate("%s did not return within %d shapepy function entries (operands in general position)" % (label, bud), op=label)
             else:
